@@ -26,6 +26,10 @@ func main() {
 		f13Child()
 		return
 	}
+	if len(os.Args) > 1 && os.Args[1] == "floodchild" {
+		floodChild()
+		return
+	}
 	a := lib.ParseArgs()
 	log.SetOutput(ioutil.Discard)
 	res := lib.NewResult("C14", a.Seed, a.Tier)
@@ -39,6 +43,8 @@ func main() {
 		switch c.Kind {
 		case "f13":
 			runF13(res, &cases)
+		case "flood":
+			runFlood(res)
 		case "hist":
 			// a history is re-run on a fresh relay from its recorded events
 			cases = append(cases, replayHistory(c, res)...)
@@ -101,8 +107,18 @@ func main() {
 			cases = append(cases, Case{Kind: "fps", NsBits: bitsOf(float64(r.U64()>>uint(r.Range(1, 63))) / float64(r.Range(1, 9)))})
 		}
 		// (a) histories on a real relay, (c) the F13 scenario in a child process
+		// the two child scenarios run while the histories do
+		childRes := lib.NewResult("C14", a.Seed, a.Tier)
+		childDone := make(chan struct{})
+		go func() { runF13(childRes, &cases); runFlood(childRes); close(childDone) }()
 		runHistories(a, rng.Fork(), res, &cases)
-		runF13(res, &cases)
+		<-childDone
+		res.Violations = append(res.Violations, childRes.Violations...)
+		res.Notes = append(res.Notes, childRes.Notes...)
+		res.Extra = childRes.Extra
+		for k, v := range childRes.Distribution {
+			res.CountN(k, v)
+		}
 	}
 
 	coq := make([]string, len(cases))
